@@ -115,6 +115,17 @@ func masterFromPreMasterSecret(version uint16, suite *cipherSuite, preMasterSecr
 	return masterSecret
 }
 
+var extendedMasterSecretLabel = []byte("extended master secret")
+
+// extMasterFromPreMasterSecret generates the extended master secret from the
+// pre-master secret and the session hash (the handshake hash up to and
+// including the ClientKeyExchange). See RFC 7627, Section 4.
+func extMasterFromPreMasterSecret(version uint16, suite *cipherSuite, preMasterSecret, sessionHash []byte) []byte {
+	masterSecret := make([]byte, masterSecretLength)
+	prfForVersion(version, suite)(masterSecret, preMasterSecret, extendedMasterSecretLabel, sessionHash)
+	return masterSecret
+}
+
 // keysFromMasterSecret generates the connection keys from the master
 // secret, given the lengths of the MAC key, cipher key and IV, as defined in
 // RFC 2246, Section 6.3.
